@@ -36,7 +36,7 @@ class World(object):
         self.check = check
         self.p = hotxlfp.Parser()
         self.count = 0
-        self.plan = None          # (site index j, action) for the evaluation in progress at depth 0
+        self.plan = None          # {site index j: action} for the evaluation in progress
         self.depth = 0
         for n, v in bindings(tag).items():
             self.p.set_variable(n, v)
@@ -56,10 +56,10 @@ class World(object):
             if self.depth == 0 or self.plan_depth_ok():
                 self.count += 1
                 pl = self.plan
-                if pl is not None and self.count == pl[0]:
-                    self.plan = None
+                if pl and self.count in pl:
+                    act = pl.pop(self.count)
                     self.check.rec.cov('interposition_sites', (kind, self.check.current_mode, self.check.current_depth))
-                    pl[1]()
+                    act()
             return default(*a)
         return cb
 
@@ -95,7 +95,7 @@ class Check(BaseCheck):
         q = tier == 'quick'
         specs = [{'campaign': 'sentinels'}, {'campaign': 'bindings', 'seed': seed}]
         for i in range(16):
-            specs.append({'campaign': 'nested', 'seed': seed, 'n': 40 if q else 2500, 'i': i})
+            specs.append({'campaign': 'nested', 'seed': seed, 'n': 90 if q else 2500, 'i': i})
         for i in range(16 if q else 48):
             specs.append({'campaign': 'threads', 'seed': seed, 'i': i, 'runs': 2 if q else 12, 'evals': 150 if q else 600})
         return specs
@@ -143,6 +143,11 @@ class Check(BaseCheck):
                         if depth == 2 and rnd.random() < 0.6:
                             continue
                         self.one_nested(rec, A, B, C, f, g, h, j, mode, depth, soloA)
+            # several complete evaluations interposed, one after the other, inside ONE outer evaluation
+            if nsites >= 2:
+                for mode in ('other-parser', 'new-parser', 'same-parser', 'mixed'):
+                    sites = sorted(rnd.sample(range(1, nsites + 1), rnd.randint(2, min(4, nsites))))
+                    self.multi_nested(rec, A, B, f, [rnd.choice(fs) for _ in sites], sites, mode, soloA)
             rec.sample({'outer': f, 'callback_sites': nsites, 'inner': g}, k=6)
 
     def one_nested(self, rec, A, B, C, f, g, h, j, mode, depth, soloA):
@@ -166,11 +171,11 @@ class Check(BaseCheck):
                     s2 = (W.count, W.plan)
                     inner['h'] = W.run(h)
                     W.count, W.plan = s2
-                plan2 = (1, third)
+                plan2 = {1: third}
             inner['g'] = T.run(g, plan2)
             if T is A:
                 T.count, T.plan = saved
-        got = A.run(f, (j, interpose))
+        got = A.run(f, {j: interpose})
         rec.case()
         if 'g' not in inner:
             rec.count('interposition_not_reached')
@@ -190,6 +195,34 @@ class Check(BaseCheck):
                 rec.violation('C03/depth-2-evaluation-differs-from-solo:' + mode, outer=f, inner=g, third=h, outcome=inner['h'], solo=solo_h)
             rec.count('depth2_interpositions')
         rec.count('interpositions')
+
+    def multi_nested(self, rec, A, B, f, gs, sites, mode, soloA):
+        inner = []
+        self.current_mode, self.current_depth = 'multi:' + mode, 1
+
+        def mk(g, k):
+            def act():
+                m = mode if mode != 'mixed' else ('other-parser', 'same-parser', 'new-parser')[k % 3]
+                T = B if m == 'other-parser' else (World(2, self) if m == 'new-parser' else A)
+                saved = (T.count, T.plan)
+                o = T.run(g)
+                if T is A:
+                    T.count, T.plan = saved
+                inner.append((g, m, o))
+            return act
+        got = A.run(f, {j: mk(g, k) for k, (j, g) in enumerate(zip(sites, gs))})
+        rec.case()
+        if len(inner) < 2:
+            rec.count('multi_interposition_not_reached')
+            return
+        rec.nt((f, tuple(sites), tuple(gs), mode))
+        rec.count('multi_interpositions')
+        if got != soloA:
+            rec.violation('C03/outer-evaluation-disturbed-by-several-nested-evaluations:' + mode, outer=f, sites=sites, inner=gs, outer_outcome=got, solo=soloA)
+        for g, m, o in inner:
+            solo = (A if m == 'same-parser' else (B if m == 'other-parser' else World(2, self))).run(g)
+            if o != solo:
+                rec.violation('C03/nested-evaluation-differs-from-solo:several:' + m, outer=f, inner=g, outcome=o, solo=solo)
 
     # ------------------------------------------------------------------ bindings isolation
     def c_bindings(self, spec, rec):
@@ -307,7 +340,8 @@ class Check(BaseCheck):
         A.set_function('INNER', lambda x: B.parse('10*2')['result'] + x)
         A.set_function('SELF', lambda x: A.parse('3*7')['result'] + x)
         A.set_function('NEWP', lambda x: hotxlfp.Parser().parse('"n"&"p"')['result'])
-        for f, exp in (('INNER(1)+5', 26), ('5+INNER(1)', 26), ('SELF(1)+5+SELF(2)', 50), ('NEWP(1)&"!"', 'np!'), ('SUM(INNER(1),SELF(1),2)*2', 90), ('INNER(INNER(1))', 41)):
+        for f, exp in (('INNER(1)+5', 26), ('5+INNER(1)', 26), ('SELF(1)+5+SELF(2)', 50), ('NEWP(1)&"!"', 'np!'), ('SUM(INNER(1),SELF(1),2)*2', 90), ('INNER(INNER(1))', 41),
+                       ('SELF(0)+SELF(0)+5', 47), ('SUM(SELF(0),SELF(0),5)', 47), ('SELF(0)&"-"&SELF(0)&"-end"', '21-21-end'), ('INNER(0)+SELF(0)+INNER(0)+1', 62)):
             r = A.parse(f)
             rec.case()
             rec.nt(f)
@@ -320,6 +354,8 @@ class Check(BaseCheck):
         c = merged['counts']
         if c.get('interpositions', 0) < 200:
             why.append('fewer than 200 interpositions happened')
+        if c.get('multi_interpositions', 0) < 50:
+            why.append('fewer than 50 evaluations with several interposed evaluations')
         if c.get('depth2_interpositions', 0) < 20:
             why.append('fewer than 20 depth-2 interpositions happened')
         kinds = set(k for k, _, _ in merged['cover'].get('interposition_sites', ()))
